@@ -32,7 +32,7 @@ type caSpec struct {
 	noSKI  bool
 }
 
-var ekuOID = map[string][]int{"server": pki.OIDEKUServerAuth, "client": pki.OIDEKUClientAuth, "ct": pki.OIDEKUCT}
+var ekuOID = map[string][]int{"server": pki.OIDEKUServerAuth, "client": pki.OIDEKUClientAuth, "ct": pki.OIDEKUCT, "any": pki.OIDEKUAny}
 
 var serialCtr = 0x020000
 
